@@ -338,21 +338,25 @@ def part_history(ctx):
     from mitxgraders import FormulaGrader, NumericalGrader, MatrixGrader, SumGrader
     rng = ctx.rng
     for cls in (FormulaGrader, NumericalGrader, MatrixGrader):
-        for it in range(ctx.scale(6, 40)):
+        for it in range(ctx.scale(2, 12)):
             kw = {} if cls is NumericalGrader else {'variables': ['x']}
             req = cls(answers='sqrt(4)' if cls is NumericalGrader else 'sqrt(x^2 + 1)', required_functions=['sqrt'], **kw)
             bl = cls(answers='4' if cls is NumericalGrader else 'x + tan(0)', blacklist=['tan', 'cos'], **kw)
-            for poison in rng.sample(POISON, 3):
-                for g in (req, bl):
-                    D.run_impl(lambda: g(None, poison))
             stu_req = '4^0.5' if cls is NumericalGrader else '(x^2 + 1)^0.5'
-            k, v = D.run_impl(lambda: req(None, stu_req))
-            if not (k == 'err' and v[1] == 'InvalidInput'):
-                ctx.violation('after a failing submission, a formula omitting the required function was not refused', {'part': 'history', 'class': cls.__name__, 'student': stu_req}, impl=v if k == 'err' else GG.canon_result(v))
             stu_bl = '4 + 0*1' if cls is NumericalGrader else 'x + 0*x'
-            k, v = D.run_impl(lambda: bl(None, stu_bl))
-            if not (k == 'out' and v['ok'] is True):
-                ctx.violation('after a failing submission that used a blacklisted function, a clean formula is refused', {'part': 'history', 'class': cls.__name__, 'student': stu_bl}, impl=v if k == 'err' else GG.canon_result(v))
+            # every failing submission is followed IMMEDIATELY by the probes (a later failure of another kind could tidy up what an earlier one left behind),
+            # then a few random sequences
+            sequences = [[p_] for p_ in POISON] + [rng.sample(POISON, 3) for _ in range(2)]
+            for seq in sequences:
+                for poison in seq:
+                    for g in rng.sample([req, bl], 2):
+                        D.run_impl(lambda: g(None, poison))
+                k, v = D.run_impl(lambda: req(None, stu_req))
+                if not (k == 'err' and v[1] == 'InvalidInput'):
+                    ctx.violation('after a failing submission, a formula omitting the required function was not refused', {'part': 'history', 'class': cls.__name__, 'student': stu_req, 'after': [q[:40] for q in seq]}, impl=v if k == 'err' else GG.canon_result(v))
+                k, v = D.run_impl(lambda: bl(None, stu_bl))
+                if not (k == 'out' and v['ok'] is True):
+                    ctx.violation('after a failing submission that used a blacklisted function, a clean formula is refused', {'part': 'history', 'class': cls.__name__, 'student': stu_bl, 'after': [q[:40] for q in seq]}, impl=v if k == 'err' else GG.canon_result(v))
             ctx.case({'history': cls.__name__}, nontrivial_key=('hist', cls.__name__, it), kind='history')
     # every input box of a summation grader is checked for forbidden strings
     keys = ['lower', 'upper', 'summand', 'summation_variable']
